@@ -154,7 +154,15 @@ class Ctx:
                 return
         self.evaluations += 1
         try:
-            res = mod.check(case, self)
+            try:
+                res = mod.check(case, self)
+            except Exception as e:  # noqa: BLE001
+                from cgv import refsim as _refsim
+
+                if isinstance(e, _refsim.MalformedCircuit):
+                    raise Violation("malformed_result|" + str(e).split(" node ")[0][:40],
+                                    f"a circuit produced by the library is malformed: {e}") from None
+                raise
         except Violation as v:
             self._record_failure(case, v)
             if v.bucket in self.passed_buckets:
@@ -359,7 +367,15 @@ def replay_main(path):
     ctx.mod = mod
     ctx.replaying = True
     try:
-        mod.check(doc["case"], ctx)
+        try:
+            mod.check(doc["case"], ctx)
+        except Exception as e:  # noqa: BLE001
+            from cgv import refsim as _refsim
+
+            if isinstance(e, _refsim.MalformedCircuit):
+                raise Violation("malformed_result|" + str(e).split(" node ")[0][:40],
+                                f"a circuit produced by the library is malformed: {e}") from None
+            raise
     except Violation as v:
         print(json.dumps({"verdict": "violation", "bucket": v.bucket, "message": v.message[:3000]}))
         return 1
